@@ -38,6 +38,7 @@ def parsePkt (w : String) : Option Pkt :=
   match w with
   | "discreq" => some .discReq | "discresp" => some .discResp | "pingreq" => some .pingReq
   | "other" => some .other | "bad" => some .badPayload | "garbage" => some .garbage
+  | "srvhello" => some .wrongName
   | "connect:0" => some (.hresp (.connect false)) | "connect:1" => some (.hresp (.connect true))
   | "hello:11" => some (.hresp (.hello true true)) | "hello:10" => some (.hresp (.hello true false))
   | "hello:01" => some (.hresp (.hello false true)) | "hello:00" => some (.hresp (.hello false false))
